@@ -184,7 +184,9 @@ def judge(c, rec):
         if st['res'] != mres:
             out.append(('correspondence', None, 'step %d (%s): MODEL %s, implementation %s' % (i, json.dumps(c['ops'][i]), json.dumps(mres)[:200], json.dumps(st['res'])[:200])))
             return out
-        if st['priv'] is not None and st['priv'] != mpriv:
+        if st['priv'] is None:
+            out.append(('note', None, 'private attributes next_index_elem / index not readable: advisory state comparison skipped'))
+        elif st['priv'] != mpriv:
             out.append(('correspondence', None, 'step %d (%s): private state (next_index_elem, len(index)) MODEL %s, implementation %s' % (i, json.dumps(c['ops'][i]), mpriv, st['priv'])))
             return out
     return out
@@ -301,6 +303,9 @@ def run(ctx):
                     if j2:
                         sc, rec, sig, text = small, r2[small['id']], j2[0][1], j2[0][2]
                 ctx.violation(sig, text, describe(sc, rec))
+            elif kind == 'note':
+                if text not in ctx.notes:
+                    ctx.notes.append(text)
             else:
                 ctx.broken_correspondence(text, describe(c, rec))
     for c in [c for c in cases if c['origin'] == 'random'][:3]:
@@ -339,7 +344,8 @@ def replay(ctx, rec):
         print('%-6s' % name.upper(), [short(a) for a, _ in x[1]] if x[0] == 'ok' else x)
     js = judge(c, r)
     for kind, sig, text in js:
-        print(kind.upper(), sig, text)
+        if kind != 'note':
+            print(kind.upper(), sig, text)
     import shutil
     shutil.rmtree(ctx.tmp, ignore_errors=True)
     return 1 if any(k == 'violation' for k, _, _ in js) else 0
